@@ -14,9 +14,23 @@ use margined_perp::margined_vamm::Direction;
 use symrt::{prove_d, VAR_MAX};
 
 fn vamm_swap(kind: Kind, dir: Direction, dec: u8, fluct: bool) -> impl Fn() {
+    vamm_swap_h(kind, dir, dec, fluct, false)
+}
+
+/// `history`: two earlier swaps in earlier blocks within the TWAP window, so that the reserve
+/// snapshots (and hence every time-weighted figure) differ from the current reserves
+fn vamm_swap_h(kind: Kind, dir: Direction, dec: u8, fluct: bool, history: bool) -> impl Fn() {
     move || {
         let d = pow10(dec);
         let mut w = vamm_only(dec, fluct, VAR_MAX);
+        if history {
+            symrt::set_full(false);
+            w.next_block(60);
+            w.vamm_exec(OWNER, 0, &swap_msg(Kind::Input, Direction::AddToAmm, Uint128::new(30 * d), Uint128::zero(), true));
+            w.next_block(120);
+            w.vamm_exec(OWNER, 0, &swap_msg(Kind::Output, Direction::AddToAmm, Uint128::new(d), Uint128::zero(), true));
+            w.next_block(20);
+        }
         symrt::set_full(true);
         let amt = sx::var("amt", 0, VAR_MAX, 10 * d);
         let lim = sx::var("lim", 0, VAR_MAX, 0);
@@ -243,6 +257,7 @@ pub fn scenarios(_seed: u64) -> Vec<Scenario> {
     let d1 = "vAMM alone; x0,y0 in [10^dec, 2^128-2^32), amount and limit in [0, 2^128-2^32): quote query before == state delta and event after; limit semantics with the limit symbolic (below / at / above the executed amount)";
     for (k, dir, n) in [(Input, AddToAmm, "in.add"), (Input, RemoveFromAmm, "in.rem"), (Output, AddToAmm, "out.add"), (Output, RemoveFromAmm, "out.rem")] {
         v.push(sc("C17", Tier::Quick, &format!("c17.vamm.{}", n), d1, 600, 120, vamm_swap(k, dir.clone(), 9, false)));
+        v.push(sc("C17", Tier::Quick, &format!("c17.vamm.{}.after-history", n), "as above after two earlier swaps in earlier blocks inside the TWAP window (reserve snapshots differ from the current reserves)", 600, 120, vamm_swap_h(k, dir.clone(), 9, false, true)));
         v.push(sc("C17", Tier::Thorough, &format!("c17.vamm.{}.d6", n), d1, 600, 300, vamm_swap(k, dir.clone(), 6, false)));
         v.push(sc("C17", Tier::Thorough, &format!("c17.vamm.{}.fluct", n), "as above with a symbolic fluctuation limit", 1500, 600, vamm_swap(k, dir, 9, true)));
     }
